@@ -137,6 +137,13 @@ func VxC19RoundTrip() {
 		arity := vxChoose(fmt.Sprintf("arity%d", p), maxArity+1)
 		nf := vxChoose(fmt.Sprintf("facts%d", p), maxFacts+1)
 		sym := ast.PredicateSym{Symbol: fmt.Sprintf("p%d", p), Arity: arity}
+		if vxParam("SAMENAME", 0) == 1 {
+			// predicates that share their name and differ in arity only
+			sym.Symbol = "p"
+			for _, q := range preds {
+				vxAssume(q.Arity != arity)
+			}
+		}
 		preds = append(preds, sym)
 		if arity == 0 && nf > 1 {
 			nf = 1
